@@ -142,6 +142,24 @@ PROPS = {
                         "I/O equivalence has no callee-level statement a contract can carry (pipeline half not applicable to this technique)."),
         "trusted_base": [KANI_TRUST, VERUS_TRUST, OS_TRUST],
     },
+    "C16": {
+        "level": "other",
+        "design_ref": "DESIGN.md section 0.4, C16",
+        "summary": ("Captured child output, the sequential functions the property rests on (Verus, unit capture, extracted from "
+                    "src/sys/process_common.rs; std::io::Read and the shared AtomicU8 are models stated in the unit).  read_captured_stream: what one "
+                    "capture thread returns is everything the child wrote to that stream for EVERY way the pipe splits it into reads, unless that "
+                    "exceeds the cap -- then the shared flag is non-zero afterwards (this stream's code if none overflowed earlier), so a truncated "
+                    "buffer never goes unflagged -- and never more than the cap.  join_capture: an uncaptured stream is null, the flagged stream is "
+                    "the OutputLimitExceeded error, non-UTF-8 bytes are InvalidUtf8, otherwise exactly the collected bytes.  wait_for_child: a raised "
+                    "flag or an expired timeout returns the matching error only AFTER the child is killed and reaped; the stream named is the one "
+                    "the flag encodes (stream_code / stream_from_code are inverse, codes non-zero).  Each contract is stated so that it holds for the "
+                    "calling thread whatever the other reader does (the flag's only writers are compare_exchange(0, code): it never returns to 0)."),
+        "not_covered": ("the composition across threads: that every truncated capture ends in an error needs the happens-before edge from a reader's "
+                        "write of its own code to the load in that stream's join (thread join), which no sequential contract carries -- argued in DESIGN.md "
+                        "0.4, not decided; that a stream sees nothing from the other stream (pipe wiring in std::process); the stdin writer thread; "
+                        "liveness of the poll loop; Windows/wasm back ends."),
+        "trusted_base": [VERUS_TRUST, OS_TRUST, "std::io::Read, std::thread and std::process::Child behave as documented; AtomicU8 compare_exchange/load are sequentially consistent"],
+    },
     "C17": {
         "level": "other",
         "design_ref": "DESIGN.md section 5, C17",
@@ -263,5 +281,4 @@ PROPS = {
 NOT_APPLICABLE = {
     "C01": "whole-program equivalence with the documented semantics (printed sequence and manner of ending for EVERY accepted program): no per-function contract carries it -- evaluation order, precedence and the arithmetic kernel are properties of the parser/evaluator recursion as a whole, and a bounded run of the evaluator is out of reach of both verifiers. Fragments of it ARE decided, under the properties whose checks own them: which evaluator arm runs for every operator x runtime types and its result type, exact and/or/not/condition truthiness (C06 unit eval_ops), that statically well-typed operand combinations are never rejected and inferred types are sound (C09 unit static_rules), find/replace/slice results (C13)",
     "C08": "about native stack bytes between guard points under two compiler profiles; neither verifier has a notion of frame sizes",
-    "C16": "quantifies over schedules of two reader threads, a polling loop and a child process; Kani has no threads and Verus would need the code rewritten with permission types (a model)",
 }
